@@ -1264,3 +1264,87 @@ M('c16-policies-stop-on-none', 'C16', 'fire:P5',
   (Q, '''            else:
                 recurse(current, i+1)
         recurse(envelope, 0)''', '''        recurse(envelope, 0)''', 1))
+
+# ------------------------------------------------- more silent twins
+M('c04-twin-get-ids-splitext', 'C04', 'silent',
+  (DS, '''        return [fn[:-4] for fn in os.listdir(self.env_dir)
+                if fn.endswith('.env')]''', '''        ids = []
+        for fn in os.listdir(self.env_dir):
+            base, ext = os.path.splitext(fn)
+            if ext == '.env':
+                ids.append(base)
+        return ids''', 1))
+M('c18-twin-named-constant', 'C18', 'silent',
+  (PX, '''        buf = bytearray(107)''', '''        buf = bytearray(PP_V1_MAX_LINE)''', 1),
+  (PX, '''class LocalConnection(Exception):''', '''PP_V1_MAX_LINE = 107
+
+
+class LocalConnection(Exception):''', 1))
+M('c19-twin-extend-count', 'C19', 'silent',
+  (DQ, '''    def extend(self, *args, **kwargs):
+        pre_n = len(self)
+        ret = super(BlockingDeque, self).extend(*args, **kwargs)
+        post_n = len(self)
+        for i in range(pre_n, post_n):
+            self.sema.release()
+        return ret''', '''    def extend(self, *args, **kwargs):
+        pre_n = len(self)
+        ret = super(BlockingDeque, self).extend(*args, **kwargs)
+        added = len(self) - pre_n
+        for i in range(added):
+            self.sema.release()
+        return ret''', 1))
+M('c05-twin-explicit-zero-slice', 'C05', 'silent',
+  (DR, '''        data_lines = self.lines[:self.EOD]''',
+   '''        data_lines = self.lines[0:self.EOD]''', 1))
+M('c14-twin-handle-timeout-helper', 'C14', 'silent',
+  (SRV, '''            except Timeout:
+                timed_out.send(self.io)
+                self.io.flush_send()
+                raise ConnectionLost()''', '''            except Timeout:
+                self._reply_timed_out()
+                raise ConnectionLost()''', 1),
+  (SRV, '''    def _gather_params(self, remaining):''', '''    def _reply_timed_out(self):
+        timed_out.send(self.io)
+        self.io.flush_send()
+
+    def _gather_params(self, remaining):''', 1))
+M('c07-twin-reset-in-finally', 'C07', 'silent',
+  (SRV, '''        self.io.send_reply(reply)
+        self.io.flush_send()
+
+        self.have_mailfrom = None
+        self.have_rcptto = None
+''', '''        self.have_mailfrom = None
+        self.have_rcptto = None
+
+        self.io.send_reply(reply)
+        self.io.flush_send()
+''', 1))
+M('c12-twin-retry-order-extra-log', 'C12', 'silent',
+  (Q, '''            when = time.time() + wait
+            self.store.set_timestamp(id, when)''', '''            when = time.time() + wait
+            logging.getQueueStorageLogger(__name__)
+            self.store.set_timestamp(id, when)''', 1))
+M('c11-twin-factory-elif', 'C11', 'silent',
+  (SR, '''        if reply.code[0] == '5':
+            return SmtpPermanentRelayError(reply)
+        else:
+            return SmtpTransientRelayError(reply)''', '''        if reply.code[0] != '5':
+            return SmtpTransientRelayError(reply)
+        return SmtpPermanentRelayError(reply)''', 1))
+M('c01-twin-perm-fail-guard-order', 'C01', 'silent',
+  (Q, '''        if id is not None:
+            self._remove(id)
+        if envelope.sender:  # Can't bounce to null-sender.
+            self._pool_spawn('bounce', self._bounce, envelope, reply)''',
+   '''        if envelope.sender:  # Can't bounce to null-sender.
+            self._pool_spawn('bounce', self._bounce, envelope, reply)
+        if id is None:
+            return
+        self._remove(id)''', 1))
+M('c02-twin-enumerate-scan', 'C02', 'silent',
+  (EW, '''        for _, result in results:
+            if isinstance(result, QueueError):''', '''        for pair in results:
+            result = pair[1]
+            if isinstance(result, QueueError):''', 1))
